@@ -397,3 +397,28 @@ S4 = {
 for _pid, (_t, _n, _tech) in S4.items():
     cat, text, note, tech, ref = CLAIMS[_pid]
     CLAIMS[_pid] = (cat, text + " " + _t, note if _n is None else note + " " + _n, tech if _tech is None else _tech, ref)
+
+# assumptions introduced with the session-4 contracts (appended to the evidence's assumptions / trusted base of the property)
+S4_ASSUME = {
+ "C01": ["PSD drivers: _rpds_single_component, the smoothing operator, np.fft.rfftfreq, prepare_fft_settings, prepare_records_with_inconsistent_dt are opaque stages used through their contracts"],
+ "C03": ["A-NAN in _check_input (the NaN test comes before the sign test)"],
+ "C05": ["A-NP-MASK (a[mask] is the sub-sequence / the rows where mask is True, in order)", "estimators opaque in the accessor proofs (formulas: the statistics.py contracts)", "np.cov opaque (A-NP-COV)",
+         "A-NP-WHERE for flatten of a row selection"],
+ "C06": ["update_peaks_bounded of a per-azimuth object = UPB(content, range, filters) (contract: C08)"],
+ "C07": ["A-RE: every pattern's match is an opaque string with an identity, rows in file order", "int()/float() of matched text uninterpreted", "A-F32: stores into the float32 buffer are exact in the model",
+         "A-OBSPY: obspy.read opaque (STREAM(file))", "files with more rows than the header announces (buffer overrun, IndexError) are evaluated natively only"],
+ "C08": ["mean curves opaque arrays of the grid's length in the mean-curve-peak proofs"],
+ "C09": ["scipy detrend / tukey / butter / sosfiltfilt opaque (A-DETREND, A-TUKEY, A-SOSFILTFILT)"],
+ "C10": ["scipy detrend / tukey / butter / sosfiltfilt opaque (A-DETREND, A-TUKEY, A-SOSFILTFILT)"],
+ "C11": ["A-NP-MASK", "A-CONCAT: np.concatenate / np.array of a list of selections is their concatenation in list order (_flatten_list itself is proved)",
+         "weighted estimators opaque in the accessor proofs (formulas: the statistics.py contracts)", "_compute_statistical_weights is one array per object state (content: its own contract)", "np.cov(aweights) opaque"],
+ "C12": ["np.savetxt / np.loadtxt / json.dumps / json.loads / open opaque: the models record what they are handed resp. return 'the file's array / dictionary'", "strings opaque; the title line has one entry per column (A-TEXT-ROUNDTRIP)",
+         "the azimuth in a column title is an uninterpreted function of the column (A-RE)", "update_peaks_bounded on the freshly read object: range / filters recorded, masks afterwards unknown (contract: C08)",
+         "type invariant of per-azimuth objects (vectors / masks / rows have one entry per curve, one column per frequency)", "A-INDUCTION for the column offsets"],
+ "C14": ["A-RNG: rng.normal(mean, std, size=n) is an opaque array of the call's position and arguments", "A-EXT: _statistics reads rows < K and columns < N only (its contract), instantiated for the array handed over"],
+ "C15": ["json / open opaque", "settings constructors with no arguments give default objects (their attribute lists: structural obligations)"],
+ "C17": ["np.mean of the squared taper = TAPER_MEAN_SQUARE(length, width) > 0", "per-component stages of psd_preprocess (_remove_instrument_response, _differentiate) opaque functions of (content, transfer function / FFT length)"],
+ "C18": ["json / open opaque"],
+ "C19": ["hvsrpy.read / preprocess / process / write_hvsr_object_to_file opaque stages (their contracts: C07, C10/C17, C01..C05, C12)", "deepcopy preserves content", "pathlib.Path(fname).stem + '.csv' as an uninterpreted function of the file name"],
+ "C20": ["matplotlib Axes and pandas as recorders of what they are handed", "statistics accessors opaque functions of (object, distribution, n) (contracts: C05, C08, C11)"],
+}
